@@ -223,6 +223,49 @@ def check_C09(ctx, deep=False):
             ctx.fail("measured-delay", status=status, case=list(case), delay_ms=delay, planned_ms=planned)
         else:
             ctx.sample({"go": list(case), "planned_ms": planned, "measured_ms": round(delay, 1)})
+    # black box: the plan of a go depends on THAT go's parameters only — every ordered pair of
+    # parameter classes (movestogo small / absent / other, increment branch) in one process, with
+    # and without ucinewgame in between; each delay is judged against its own plan
+    classes = [(350, 0, 1), (3100, 0, None), (60, 200, None), (1600, 0, 10), (9100, 0, None)]
+    pairs = [(a, b, sep) for a in classes for b in classes if a != b for sep in ("", "ucinewgame")]
+
+    def two(pr):
+        a, b, sep = pr
+        worst = None
+        for attempt in range(3):
+            e = S.Engine()
+            try:
+                if not S.handshake(e):
+                    return ("no-handshake", pr, None, None)
+                bad = None
+                for idx, (clock, inc, mtg) in enumerate((a, b)):
+                    if idx == 1 and sep:
+                        e.send(sep)
+                    e.send("position startpos")
+                    go = "go wtime %d btime %d winc %d binc %d" % (clock, clock, inc, inc)
+                    if mtg:
+                        go += " movestogo %d" % mtg
+                    planned = plan(k, clock, inc, mtg)
+                    r = S.go_and_wait(e, go, planned / 1000.0 + 12)
+                    if not r["answered"]:
+                        return ("unanswered", pr, None, planned)
+                    delay = (r["t_best"] - r["t_go"]) * 1000
+                    if not (planned - 5 <= delay <= planned + 300):
+                        bad = (idx, delay, planned)
+                        break
+                if bad is None:
+                    return ("ok", pr, None, None)
+                worst = bad
+            finally:
+                e.kill()
+        return ("delay", pr, worst[1], worst[2], worst[0])
+    for res in S.run_parallel(two, pairs, workers=6):
+        status, pr = res[0], res[1]
+        ctx.case(("timed-pair", pr), True)
+        ctx.count("timed_pair_sessions")
+        if status != "ok":
+            ctx.fail("measured-delay-after-earlier-go", status=status, first=list(pr[0]), second=list(pr[1]),
+                     between=pr[2], delay_ms=res[2], planned_ms=res[3], which_go=(res[4] if len(res) > 4 else None))
 
 
 def plan(k, clock, inc, mtg):
